@@ -592,7 +592,7 @@ pub fn property(tier: Tier) -> Property {
         }),
     ];
     Property {
-        id: "C18",
+        id: "C18", scale: tier.pick(1, 1),
         stages,
         assumptions: vec!["payload values are restricted to spellings that are not accepted by an earlier payload variant and contain no whitespace or brackets (as the statement allows)".into()],
     }
